@@ -9,7 +9,7 @@ Theorems in Thm/C01.lean are re-checked on every run.
 import binascii
 from vf import core, acbuild
 
-THM = ["YaraModel.Thm.C01", "YaraModel.Thm.AcCert", "YaraModel.Thm.AcBuild", "YaraModel.Thm.C01EndToEnd"]
+THM = ["YaraModel.Thm.C01", "YaraModel.Thm.AcCert", "YaraModel.Thm.AcBuild", "YaraModel.Thm.C01EndToEnd", "YaraModel.Thm.AcLayout"]
 MANIFEST = dict(
     technique="Lean 4 proofs (atoms cover every variant for every window choice; verify = spec; sorted de-duplicated insertion; pipeline = spec for every complete candidate set) + spec-level correspondence of the real engine against the Lean specification",
     text="proof: Thm/C01.lean proves for ALL strings, ALL legal modifier sets / xor ranges, ALL atom-window choices (hence all quality heuristics) and ALL buffers that the "
@@ -25,7 +25,7 @@ MANIFEST = dict(
          "and the specification sequence, order included, on every generated rule set and buffer (sampled). "
          "Thm/C01EndToEnd.lean composes the two (text_strings_end_to_end): for every rule set of text strings sharing one automaton, every window choice and every buffer, "
          "the model's whole chain atoms -> construction -> scan -> verification -> insertion reports exactly each string's documented occurrences, with no hypothesis "
-         "about the candidate stage left (the two known deviations F19 / F20 of the verification step remain as explicit hypotheses).",
+         "about the candidate stage left (the two known deviations F19 / F20 of the verification step remain as explicit hypotheses). The generator includes strings whose occurrences exceed YR_CONFIG_MAX_MATCH_DATA (> 512 bytes, > 256 characters + wide) and cases with that limit lowered to 0..8: the reported match_length must stay the true length. Thm/AcLayout.lean (definitions regenerated from types.h / ahocorasick.[ch] by translators/aclayout.py) checks that the C fields a transition-table slot passes through are wide enough for the builder's own size limit and that the model's constants are the code's.",
     design_ref="DESIGN.md §5 C01",
     note=core.TB + "Hooks H3/H4 are trusted to report truthfully. Buffers are single blocks.")
 
@@ -110,7 +110,14 @@ def flipcase(r, s):
     return [(c ^ 0x20) if (65 <= c <= 90 or 97 <= c <= 122) and r.random() < 0.5 else c for c in s]
 
 
-def gen_buffer(r, s, m):
+def gen_long_string(r):
+    """occurrences longer than YR_CONFIG_MAX_MATCH_DATA (512): > 512 bytes, or > 256 characters with `wide`"""
+    n = r.choice([257, 300, 513, 520, 600, 700])
+    a = r.sample(ALPHA, 3)
+    return [r.choice(a) if r.random() < 0.9 else r.randint(0, 255) for _ in range(n)]
+
+
+def gen_buffer(r, s, m, limit=200):
     n = r.randint(0, 96)
     filler = r.choice([[0x2E], [0x20, 0x41], [0x00], ALPHA, s if s else [0]])
     buf = [r.choice(filler) for _ in range(n)]
@@ -150,7 +157,7 @@ def gen_buffer(r, s, m):
     if r.random() < 0.15:                                         # occurrence ending exactly at the last byte
         v = r.choice(variants)
         buf = buf + v
-    return buf[:200]
+    return buf[:limit]
 
 
 def parse_matches(line):
@@ -315,8 +322,8 @@ def run_b64(chk, b, tier, r):
 
 def run(tier, replay=None):
     chk = core.Check("C01", tier)
-    lres = core.lean_check(THM)
-    core.proof_coverage(chk, lres, THM)
+    lres = core.lean_check(THM, translators=["aclayout"])     # Gen/AcLayout.lean: field widths / constants of the automaton tables, from the sources
+    core.proof_coverage(chk, lres, THM, translators=lres.get("translators"))
     b = core.build("asan", harness=["h_scan"])
     if replay and replay.get("acbuild"):                 # a filed construction mismatch: recompile that rule set, rebuild, compare
         core.handle_broken_proof(chk, lres, acbuild.replay(chk, b, replay))
@@ -334,12 +341,21 @@ def run(tier, replay=None):
             m["xor"] = tuple(e["xor"]) if e["xor"] else None
             cid = "k%d" % (i + len(corpus))
         else:
-            s = gen_string(r); m = gen_mods(r); buf = gen_buffer(r, s, m)
+            if i % 250 == 7:                       # the TRUE length must be reported, also beyond the match-data limit
+                s = gen_long_string(r); m = gen_mods(r)
+                if len(s) <= 512 and "w" not in m["enc"].split(","):
+                    m["enc"] = r.choice(["w", "a,w"]); m["explicit_ascii"] = True
+                if m["xor"] and m["xor"][1] - m["xor"][0] > 3:
+                    m["xor"] = (m["xor"][0], min(255, m["xor"][0] + 2))
+                buf = gen_buffer(r, s, m, limit=2400)
+            else:
+                s = gen_string(r); m = gen_mods(r); buf = gen_buffer(r, s, m)
             cid = "t%d" % i
         src = 'rule r { strings: $a = "%s" %s condition: #a >= 0 }' % (esc(s), mods_text(m))
         cases.append(dict(id=cid, s=hx(s), mods=mods_text(m), buf=hx(buf), private=m["private"], xor=m["xor"]))
         small = (m["xor"] is None or m["xor"][1] - m["xor"][0] <= 3)
-        hl.append("%s src=%s atoms=1 cands=1 %sbuf=%s" % (cid, hx(src.encode()), "actab=1 " if small and (i < 0 or i % 6 == 0) else "", hx(buf)))
+        mmd = "mmd=%d " % r.choice([0, 1, 2, 3, 4, 8]) if (i >= 0 and r.random() < 0.12) else ""   # lowered YR_CONFIG_MAX_MATCH_DATA: lengths stay true
+        hl.append("%s src=%s atoms=1 cands=1 %s%sbuf=%s" % (cid, hx(src.encode()), mmd, "actab=1 " if small and (i < 0 or i % 6 == 0) else "", hx(buf)))
         dl.append("%s mods=%s s=%s buf=%s" % (cid, mods_tok(m), hx(s), hx(buf)))
     if replay:
         cases, hl, dl = [replay["case"]], [replay["harness_line"]], [replay["driver_line"]]
